@@ -353,6 +353,7 @@ func TestC18Reentrancy(t *testing.T) {
 	known := isKnown("C18", sigFlushReentrancy)
 	var wedged []string
 	for _, c := range reCells() {
+		journal("C18 cell %v", c)
 		if known && (c.Event == "flush" || c.Event == "drain" || c.Event == "srv.flush" || c.Event == "srv.drain") && c.Action == "Send" {
 			col.Exclude("Send from a flush/drain listener (known finding " + sigFlushReentrancy + ")")
 			continue
